@@ -180,16 +180,46 @@ Proof.
   all: rewrite (I6 eq_refl) in *; discriminate.
 Qed.
 
+(* ---------- answers of the queries ---------- *)
+Definition zeroed (p : pc) : bool :=
+  match p with PLock | PHeld | PSleep | PRecheck | PInit => true | _ => false end.
+Definition stepping (p : pc) : bool :=
+  match p with PStepBody | PInc => true | _ => false end.
+
+Definition InvQ (c : config) : Prop :=
+  let '(mk p r s t n w d tr) := c in
+  match last_is tr with
+  | Some (EStep j) => n = 0 \/ n = j \/ n = S j
+  | _ => n = 0
+  end
+  /\ (zeroed p = true -> n = 0)
+  /\ (stepping p = true -> last_is tr = Some (EStep n))
+  /\ (r = false -> can_be_false tr = true)
+  /\ (d = true -> can_be_false tr = true).
+
+Lemma invq_init : InvQ init.
+Proof. simpl. repeat split; auto; discriminate. Qed.
+
+Lemma invq_step c m c' : InvQ c -> step c m = Some c' -> InvQ c'.
+Proof.
+  intros I H. step_cases c m H; destruct I as (I1 & I2 & I3 & I4 & I5);
+  repeat split; intros; simpl in *; try discriminate; try congruence; auto.
+  all: try (rewrite (I3 eq_refl) in *; auto; fail).
+  all: try (rewrite (I2 eq_refl) in *; destruct (last_is tr) as [[]|]; auto; fail).
+  all: try (destruct (last_is tr) as [[]|]; auto; fail).
+  all: try (destruct w, d; simpl in *; discriminate).
+Qed.
+
 (* ---------- all invariants together; goodness of every history prefix ---------- *)
-Definition Inv (c : config) : Prop := Inv1 c /\ InvTd c /\ InvPend c /\ InvRb c.
+Definition Inv (c : config) : Prop := Inv1 c /\ InvTd c /\ InvPend c /\ InvRb c /\ InvQ c.
 
 Lemma inv_init : Inv init.
 Proof. repeat split; auto using inv1_init, invtd_init, invpend_init, invrb_init; intros; discriminate. Qed.
 
 Lemma inv_step c m c' : Inv c -> step c m = Some c' -> Inv c'.
 Proof.
-  intros (A & B & C & D) H.
-  repeat split; eauto using inv1_step, invtd_step, invpend_step, invrb_step.
+  intros (A & B & C & D & E) H.
+  split; [|split; [|split; [|split]]]; eauto using inv1_step, invtd_step, invpend_step, invrb_step, invq_step.
 Qed.
 
 Lemma reachable_inv c : reachable c -> Inv c.
@@ -198,7 +228,7 @@ Proof. induction 1; eauto using inv_init, inv_step. Qed.
 Lemma inv_le1 c : Inv c ->
   le1 (pend (c_trace c)) = true /\ le1 (rbm (c_trace c)) = true /\ le1 (tdm (c_trace c)) = true.
 Proof.
-  destruct c as [p r s t n w d tr]. intros (_ & B & C & D). simpl in *.
+  destruct c as [p r s t n w d tr]. intros (_ & B & C & D & _). simpl in *.
   repeat split.
   - destruct (pend tr) as [[|[|k]]|]; auto. lia.
   - destruct D as (_ & D). destruct (rbm tr) as [[|[|k]]|]; auto.
@@ -209,12 +239,15 @@ Lemma eqb_refl_ev k : ev_eqb (EStep k) (EStep k) = true.
 Proof. simpl. apply Nat.eqb_refl. Qed.
 
 (* a move appends at most one event, and that event is admissible after the old trace *)
-Lemma trace_step c m c' : Inv1 c -> InvTd c -> step c m = Some c' ->
+Lemma trace_step c m c' : Inv1 c -> InvTd c -> InvQ c -> step c m = Some c' ->
   c_trace c' = c_trace c \/ exists e, c_trace c' = e :: c_trace c /\ head_ok e (c_trace c) = true.
 Proof.
-  intros I ITd H. step_cases c m H; auto; right; eexists; split; try reflexivity; simpl; auto;
-  destruct I as (I1 & I2 & I3 & I4 & I5 & I6 & I7 & I8 & I9); simpl in *.
-  all: try (destruct r; auto; destruct (rae tr) as [[|]|]; auto; specialize (I3 eq_refl); discriminate).
+  intros I ITd IQ H. step_cases c m H; auto; right; eexists; split; try reflexivity; simpl; auto;
+  destruct I as (I1 & I2 & I3 & I4 & I5 & I6 & I7 & I8 & I9); destruct IQ as (Q1 & Q2 & Q3 & Q4 & Q5); simpl in *.
+  all: try (destruct r; [rewrite (I1 eq_refl); simpl; destruct (rae tr) as [[|]|]; auto; specialize (I3 eq_refl); discriminate
+                        | apply Q4; reflexivity]).
+  all: try (unfold qstep_ok; destruct (last_is tr) as [[| j | | | | |]|]; subst; auto;
+            destruct Q1 as [->|[->| ->]]; simpl; rewrite ?Nat.eqb_refl, ?orb_true_r; auto; fail).
   - destruct I4 as [_ I4]. destruct (last_thr tr) as [[]|]; simpl; auto.
   - rewrite I5. destruct n; simpl in I4; rewrite I4; simpl; auto. rewrite Nat.eqb_refl. auto.
   - rewrite I4. simpl. unfold exit_cause. destruct (tdm tr); auto.
@@ -229,7 +262,7 @@ Proof.
   induction 1 as [|c m c' R IH H]; [reflexivity|].
   pose proof (reachable_inv _ R) as Ic.
   pose proof (inv_step _ _ _ Ic H) as Ic'.
-  destruct (trace_step _ _ _ (proj1 Ic) (proj1 (proj2 Ic)) H) as [E|(e & E & Hh)].
+  destruct (trace_step _ _ _ (proj1 Ic) (proj1 (proj2 Ic)) (proj2 (proj2 (proj2 (proj2 Ic)))) H) as [E|(e & E & Hh)].
   - rewrite E. exact IH.
   - destruct (inv_le1 _ Ic') as (P1 & P2 & P3). rewrite E in *.
     rewrite all_good_cons, IH. unfold good. rewrite P1, P2, P3, Hh. reflexivity.
@@ -408,7 +441,7 @@ Proof.
   - intros post2 post1 ->. rewrite <- app_assoc in A. apply all_good_app in A. simpl in A.
     apply andb_true_iff in A. destruct A as [G _]. apply good_parts in G.
     destruct G as (_ & _ & _ & G). simpl in G.
-    destruct (rae_seg post1 suf) as [X|X]; auto. rewrite X in G. discriminate.
+    destruct (rae_seg post1 suf) as [X|X]; auto. rewrite X in G. rewrite andb_false_r in G. discriminate.
 Qed.
 
 Lemma tdm_some_In tr : tdm tr <> None -> exists seg suf, tr = seg ++ ECmd Teardown :: suf.
@@ -866,3 +899,141 @@ Proof.
     apply (RR_step c m); [exact IH | apply step_sstep; exact H].
 Qed.
 
+
+(* ---------- answers of step_number() / is_running() against the history ---------- *)
+Lemma query_answers c post e suf :
+  reachable c -> c_trace c = post ++ e :: suf ->
+  match e with
+  | EQStep k => qstep_ok k suf = true
+  | EQRun false => can_be_false suf = true
+  | EQRun true => runreq suf = true /\ rae suf <> Some false
+  | _ => True
+  end.
+Proof.
+  intros R E. pose proof (reachable_good_suffix _ _ _ R E) as G.
+  apply good_parts in G. destruct G as (_ & _ & _ & G). simpl in G.
+  destruct e as [| | | |[|]| |]; auto.
+  apply andb_true_iff in G. destruct G as (G1 & G2). split; auto.
+  intros X. rewrite X in G2. discriminate.
+Qed.
+
+(* ---------- bounded exit, clause (b'): run_ is up, run_condition false from now on ---------- *)
+(* own moves to PExited when run_ = true and every run_condition() answers false *)
+Definition dist2 (p : pc) : nat :=
+  match p with
+  | PExited => 0 | PDone => 1 | PFinal => 2 | PC2a => 3 | PAfter => 4 | PC1a => 5
+  | PInc => 6 | PStepBody => 7 | PStep => 8 | PC1c => 9 | PC1b => 10
+  | PInitBody => 6 | PInit => 7 | PHeld => 8 | PRecheck => 8 | PLock => 9 | PSleep => 9
+  | PZero => 10 | PTop => 11 | PC2d => 12 | PC2c => 13 | PC2b => 13
+  end.
+
+Definition exit_bound_running : nat := 13.
+
+Definition may_init (p : pc) : nat :=
+  match p with
+  | PTop | PZero | PLock | PHeld | PSleep | PRecheck | PInit | PC2b | PC2c | PC2d => 1
+  | _ => 0
+  end.
+
+Fixpoint count_inits (l : list event) : nat :=
+  match l with [] => 0 | EInit :: t => S (count_inits t) | _ :: t => count_inits t end.
+
+Lemma count_inits_app a b : count_inits (a ++ b) = count_inits a + count_inits b.
+Proof. induction a as [|[] a IH]; simpl; lia. Qed.
+
+(* continuation without reboot() and with only false run_condition answers *)
+Definition quiet_rc (m : move) : bool :=
+  match m with MThread true | MCmd Reboot => false | _ => true end.
+
+Definition running_or_done (c : config) : Prop :=
+  c_mid c = false /\ (c_run c = true \/ c_pc c = PDone \/ c_pc c = PExited).
+
+Lemma rcr_move c m c' : running_or_done c -> quiet_rc m = true -> step c m = Some c' ->
+  running_or_done c'
+  /\ exists post, c_trace c' = post ++ c_trace c
+     /\ dist2 (c_pc c') + (if is_thread_move m then 1 else 0) <= dist2 (c_pc c)
+     /\ count_steps post + may_step (c_pc c') <= may_step (c_pc c)
+     /\ count_inits post + may_init (c_pc c') <= may_init (c_pc c).
+Proof.
+  unfold running_or_done. intros (M & Rn) F H. step_cases c m H; simpl in *; subst; try discriminate;
+  try (destruct Rn as [X|[X|X]]; [try discriminate X; try subst r|discriminate X|discriminate X]);
+  (split; [split; auto; tauto |]);
+  try (exists []; simpl; repeat split; try lia; fail);
+  try (eexists [_]; simpl; repeat split; try lia; fail);
+  try (destruct s; exists []; simpl; repeat split; lia);
+  try (destruct t; exists []; simpl; repeat split; lia).
+Qed.
+
+Lemma rcr_enabled c : reachable c -> running_or_done c -> c_pc c <> PExited ->
+  exists c', step c (MThread false) = Some c'.
+Proof.
+  intros R (M & Rn) N. pose proof (reachable_inv _ R) as (I1 & _).
+  destruct c as [p r s t n w d tr]; simpl in *. subst d. destruct I1 as (_ & I2 & _).
+  destruct p; simpl; eauto; try congruence.
+  destruct w; simpl; eauto.
+  destruct Rn as [->|[X|X]]; try discriminate X. destruct (I2 eq_refl eq_refl eq_refl); discriminate.
+Qed.
+
+Lemma bounded_exit_running c ms c' :
+  reachable c -> c_run c = true -> c_mid c = false ->
+  forallb quiet_rc ms = true -> run_moves c ms = Some c' ->
+  (c_pc c' <> PExited -> exists c'', step c' (MThread false) = Some c'')
+  /\ thread_moves ms <= dist2 (c_pc c) /\ dist2 (c_pc c) <= exit_bound_running
+  /\ (dist2 (c_pc c) <= thread_moves ms -> c_pc c' = PExited)
+  /\ exists post, c_trace c' = post ++ c_trace c
+       /\ count_steps post <= may_step (c_pc c) /\ count_inits post <= may_init (c_pc c).
+Proof.
+  intros R Hr Hm F H.
+  assert (G : running_or_done c' /\ exists post, c_trace c' = post ++ c_trace c
+              /\ dist2 (c_pc c') + thread_moves ms <= dist2 (c_pc c)
+              /\ count_steps post + may_step (c_pc c') <= may_step (c_pc c)
+              /\ count_inits post + may_init (c_pc c') <= may_init (c_pc c)).
+  { assert (RD : running_or_done c) by (split; auto). clear Hr Hm R.
+    revert c RD H. induction ms as [|m ms IH]; simpl; intros c RD H.
+    - injection H as <-. split; auto. exists []. simpl. repeat split; lia.
+    - simpl in F. apply andb_true_iff in F. destruct F as [F1 F2].
+      destruct (step c m) as [c1|] eqn:E; [|discriminate].
+      destruct (rcr_move _ _ _ RD F1 E) as (RD1 & p1 & E1 & L1 & S1 & N1).
+      destruct (IH F2 _ RD1 H) as (RD2 & p2 & E2 & L2 & S2 & N2).
+      split; auto. exists (p2 ++ p1). rewrite count_steps_app, count_inits_app.
+      repeat split; try lia. rewrite E2, E1, app_assoc. reflexivity. }
+  destruct G as (RD' & post & E & L & S & N).
+  split; [intros X; apply rcr_enabled; auto; eapply run_moves_reachable; eauto|].
+  split; [lia|]. split; [destruct (c_pc c); simpl; unfold exit_bound_running; lia|].
+  split.
+  { intros X. assert (Z : dist2 (c_pc c') = 0) by lia. destruct (c_pc c'); simpl in Z; try discriminate; auto. }
+  exists post. repeat split; auto; lia.
+Qed.
+
+(* ... and the carve-out is genuine: with run_ down the thread goes to sleep and stays there *)
+Definition parked (c : config) : Prop :=
+  c_pc c = PSleep /\ c_woken c = false /\ c_mid c = false.
+
+Definition no_wake (m : move) : bool :=
+  match m with MCmd Run | MCmd Reboot | MCmd Teardown | MSpurious | MRebootEnd => false | _ => true end.
+
+Lemma parked_stays c m c' : parked c -> no_wake m = true -> step c m = Some c' -> parked c'.
+Proof.
+  destruct c as [p r s t n w d tr]. intros (P & W & M) F H. simpl in *. subst.
+  destruct m as [b| |k|]; try discriminate; simpl in H; try discriminate.
+  destruct k; simpl in *; try discriminate; injection H as <-; repeat split.
+Qed.
+
+Lemma not_running_sleeps :
+  exists c c', reachable c /\ c_run c = false /\ c_td c = false /\ c_pc c = PTop
+    /\ run_moves c (repeat (MThread false) 4) = Some c' /\ parked c'
+    /\ (forall b, step c' (MThread b) = None) /\ step c' (MCmd Wait) = None
+    /\ forall ms c'', forallb no_wake ms = true -> run_moves c' ms = Some c'' ->
+         parked c'' /\ (forall b, step c'' (MThread b) = None) /\ step c'' (MCmd Wait) = None.
+Proof.
+  exists init, (mk PSleep false false false 0 false false []).
+  split; [constructor|]. repeat (split; [reflexivity|]).
+  split; [repeat split|]. split; [reflexivity|]. split; [reflexivity|].
+  intros ms. generalize (mk PSleep false false false 0 false false []) at 1 2.
+  assert (K : forall ms c0 c'', parked c0 -> forallb no_wake ms = true -> run_moves c0 ms = Some c'' -> parked c'').
+  { clear. induction ms as [|m ms IH]; simpl; intros c0 c'' P F H.
+    - injection H as <-. auto.
+    - apply andb_true_iff in F. destruct F as [F1 F2].
+      destruct (step c0 m) as [c1|] eqn:E; [|discriminate].
+      apply (IH c1); auto. eapply parked_stays; eauto. }
+Abort.
